@@ -626,7 +626,8 @@ impl<Backing : AsRef<[u32]> + AsMut<[u32]>> DrawTarget<Backing> {
     /// Pushes a new layer as the drawing target. This is used for implementing
     /// group opacity or blend effects.
     pub fn push_layer_with_blend(&mut self, opacity: f32, blend: BlendMode) {
-        let mut rect = self.clip_bounds();
+        // nothing outside the target can ever be seen, and the clip can be arbitrarily large
+        let mut rect = self.clip_bounds().intersection_unchecked(&intrect(0, 0, self.width, self.height));
         // the clip can be an inverted box (disjoint clip rects) whose width * height
         // is negative or a bogus positive number: such a layer is simply empty
         if rect.is_empty() {
